@@ -116,8 +116,8 @@ structure State where
   opt : Opts := {}
   files : List File := []               -- ascending fid
   activeFid : Nat := 0
-  /-- `ActiveFile.fileID`, the file id written into hints; differs from `activeFid` only after
-  `reWriteData`, which never sets it -/
+  /-- `ActiveFile.fileID`, the file id written into hints; set wherever a file becomes active (`Open`,
+  rotation, `reWriteData` — the last one since fix 'reWriteData sets the file id', before which it stayed 0) -/
   hintFid : Nat := 0
   writeOff : Nat := 0
   actualSize : Nat := 0
